@@ -562,6 +562,7 @@ func main() {
 		"L7 grouping compositions: (clause on the unwrapped range function) x (clause on the vector aggregation) over {none, by(L), without(L)}, L in {a},{a,b},{b} (subset, superset, disjoint, equal), prefix and suffix position, x {sum,max,count}, on every sub-database of <=3 (4) entries of four streams (two differing only in b, one in a, one without b) x two buckets; " +
 		"L8 environment: reader process time zone (time.Local in UTC, UTC+9, UTC+14, UTC-5, UTC+5:45) x 120 s windows starting 60 s before / after UTC midnight and the zone's local midnight and 60 s before / after those instants + 30 min, x query families (plain range aggregation, shortcut + by, rate + by, topk over sum without, unwrapped sum; thorough 19 shapes) x databases whose time_series rows carry the UTC day of their samples (single entries and the whole 6-entry pool; thorough pairs too); " +
 		"L9 history independence: every case is a sequence of four REQUESTS in one process through the real logql_parser.Parse + Plan with no cache of the harness (the text, the same text, a sibling query sharing its prefix, the text again), each judged against the reference; metric queries with a stage evaluated in Go (json without parameters, logfmt, line_format) AFTER a line filter / label filter, and pure-SQL shapes; " +
+		"L10 boundary line filters x boundary lines in both tiers: line filters |~ / !~ over {empty, .*, .+, (?s).*, (?s).+, (?-s).+, ., .?, ^, $, ^$, ^.*$, ^.+$, [^k], newline escape, literal newline}, |= / != over {empty, newline, literal . and .+} and two-stage pipelines of them x {count_over_time, sum by (a) (rate), bytes_over_time (thorough bytes_rate, compared count)} x range {10s,15s,1m} (thorough + 5s; both sides of the metrics_15s shortcut condition) x every sub-database of <=3 (4) entries of a 7-entry pool holding the empty line, a one-character line, a line that is only a newline, a line with an inner newline and an ordinary line in two selected streams and two buckets (metrics_15s derived by the materialized view: every line counts); " +
 		"L5 ungrouped unwrap, missing / non-numeric / zero / negative unwrapped values, equal timestamps, empty line filters, quantile_over_time, thresholds with > 6 decimals, cluster mode, ranges 20s/30s, further matchers. " +
 		"A case is distinct by (query text, database, from, to, step, cluster, zone) - asserted unique at generation; non-trivial = the reference result is non-empty"
 	r.Assumptions = []string{
